@@ -28,6 +28,7 @@ class Interp:
         self.prog, self.P = prog, P
         self.problems = []
         self.depth = 0
+        self.bounds = {}
 
     def rel_holds(self, rels, a, b):
         """is a >= b known?"""
@@ -42,7 +43,35 @@ class Interp:
         finally:
             self.depth -= 1
 
+    def refine(self, c, truth, env, rels, fn):
+        """narrow the interval of the compared sub-terms on one side of a comparison"""
+        if not (isinstance(c, tuple) and c[0] == "bin" and c[1] in ("Lt", "Le", "Gt", "Ge")):
+            return
+        x, y = strip(c[2]), strip(c[3])
+        op = c[1]
+        if not truth:
+            op = {"Lt": "Ge", "Le": "Gt", "Gt": "Le", "Ge": "Lt"}[op]
+        ix, iy = self.iv(x, env, rels, fn), self.iv(y, env, rels, fn)
+        if op == "Ge":
+            nx, ny = (max(ix[0], iy[0]), ix[1]), (iy[0], min(iy[1], ix[1]))
+        elif op == "Gt":
+            nx, ny = (max(ix[0], iy[0] + 1), ix[1]), (iy[0], min(iy[1], ix[1] - 1))
+        elif op == "Le":
+            nx, ny = (ix[0], min(ix[1], iy[1])), (max(iy[0], ix[0]), iy[1])
+        else:
+            nx, ny = (ix[0], min(ix[1], iy[1] - 1)), (max(iy[0], ix[0] + 1), iy[1])
+        for t_, n_ in ((x, nx), (y, ny)):
+            if t_[0] not in ("const", "cparam"):
+                self.bounds[repr(t_)] = n_
+
     def _iv(self, t, env, rels, fn):
+        r = self._iv0(t, env, rels, fn)
+        b = self.bounds.get(repr(strip(t))) if self.bounds else None
+        if b:
+            r = (max(r[0], b[0]), min(r[1], b[1]))
+        return r
+
+    def _iv0(self, t, env, rels, fn):
         t0 = t
         t = strip(t)
         if not isinstance(t, tuple) or not t:
@@ -127,8 +156,13 @@ class Interp:
                     return self.iv(tv, env, self.with_rel(rels, c, True), fn)
                 if dec is False:
                     return self.iv(fv, env, self.with_rel(rels, c, False), fn)
+                saved = dict(self.bounds)
+                self.refine(c, True, env, rels, fn)
                 a = self.iv(tv, env, self.with_rel(rels, c, True), fn)
+                self.bounds = dict(saved)
+                self.refine(c, False, env, rels, fn)
                 b = self.iv(fv, env, self.with_rel(rels, c, False), fn)
+                self.bounds = saved
                 return (min(a[0], b[0]), max(a[1], b[1]))
             vals = [self.iv(v, env, rels, fn) for _, v in t[2]]
             return (min(v[0] for v in vals), max(v[1] for v in vals))
@@ -267,11 +301,14 @@ def run(prog):
 
 
 def nb_inv(prog, bodies):
+    """every FiniteField literal holds a value in [0, P-1], for every exported prime (interval analysis
+    with branch refinement; `x % P`, a copy of a field value and a correct conditional subtraction all pass)"""
     out = []
+    primes = {mir.last_seg(p): int(c["val"]) for p, c in prog.consts.items()
+              if "constants::primes::" in p and c.get("val")}
     bad = []
     n = 0
     for fn in prog.lib_fns:
-        te = None
         if not any(s["k"] == "assign" and s["rv"]["k"] == "agg" and s["rv"].get("adt", "").endswith("FiniteField")
                    for b in fn.blocks for s in b["stmts"]):
             continue
@@ -279,13 +316,17 @@ def nb_inv(prog, bodies):
         for bb, t, line in te.aggs:
             if t[1] == "adt" and t[2] == FF:
                 n += 1
-                v = strip(t[4][0])
-                reduced = v[0] == "bin" and v[1] == "Rem" and strip(v[3]) == ("cparam", "P")
-                is_clone = fn.name in ("clone",) or v == ("field", ("param", 1), "v", FF)
-                if not reduced and not is_clone:
-                    bad.append("%s:%s builds FiniteField{v: %s} without `%% P`" % (fn.npath, line, show(v)))
+                v = t[4][0]
+                for pname, P in sorted(primes.items()):
+                    it = Interp(prog, P, fn)
+                    lo, hi = it.iv(v, {}, frozenset(), fn)
+                    if hi > P - 1:
+                        bad.append("%s:%s builds FiniteField{v: %s} whose value can reach %s for P = %s: not a residue "
+                                   "(equality, hashing and value() then disagree with arithmetic mod P)"
+                                   % (fn.npath, line, show(v)[:60], "P" if hi == P else hi, pname))
+                        break
     out.append(inst("NB", "%s:literal-reduced" % FF, VIOLATION if bad else OK, bodies["new"], None,
-                    "; ".join(bad) if bad else "%d struct literal(s), all of the form v %% P (or a copy)" % n))
+                    "; ".join(bad[:2]) if bad else "%d struct literal(s), value always within [0, P-1]" % n))
     return out
 
 
@@ -345,6 +386,27 @@ def nb_poly(prog):
                     if (rhs[0] == "constitem" and rhs[1].endswith("MAX_COEFFS")) or (rhs[0] == "const" and rhs[2] == "32"):
                         ok = True
                         why = "guarded by idx < MAX_COEFFS"
+            if not ok and idx[0] in ("field", "bin"):
+                # idx = i + j with j drawn from 0..min(_, MAX_COEFFS - i)
+                sm = strip(idx[1]) if idx[0] == "field" else idx
+                if sm[0] == "bin" and sm[1].startswith("Add"):
+                    parts = [strip(sm[2]), strip(sm[3])]
+                    for a_, b_ in (parts, parts[::-1]):
+                        for x in mir.subterms(b_):
+                            if x[0] == "mutref":
+                                for (h, l), init in te.mu_init.items():
+                                    if l == x[1]:
+                                        for y in mir.subterms(init):
+                                            if mir.is_call(y, "min"):
+                                                for z in y[2]:
+                                                    z = strip(z)
+                                                    if z[0] == "field" and z[2] == "0":
+                                                        z = strip(z[1])
+                                                    if z[0] == "bin" and z[1].startswith("Sub") and repr(strip(z[3])) == repr(a_) and \
+                                                            ((strip(z[2])[0] == "const" and strip(z[2])[2] == "32") or
+                                                             (strip(z[2])[0] == "constitem" and strip(z[2])[1].endswith("MAX_COEFFS"))):
+                                                        ok = True
+                                                        why = "j ranges over 0..min(_, MAX_COEFFS − i)"
             if not ok:
                 # loop index drawn from 0..n with n = min(.., MAX_COEFFS)
                 for x in mir.subterms(idx):
